@@ -3,8 +3,12 @@ package props
 import (
 	"bytes"
 	"crypto"
+	"errors"
 	"fmt"
+	"hash/crc32"
+	"io"
 	"strings"
+	"sync/atomic"
 	"time"
 	"unsafe"
 
@@ -225,21 +229,23 @@ func c18ClaimsPair(c *choice.Ctx, st *Stats, build func() psatoken.IClaims, labe
 // derivedSerialisations: unrelated claims-sets of derived types serialised successfully through the embedding-aware
 // helpers, directly and through the types' own codec methods (what a pooled output buffer would be handed to next).
 func derivedSerialisations() {
-	for i, a := range []*refmodel.Claims{c02Claims()[3], c02Claims()[0]} {
-		b := *a
-		b.Canon, b.Profile = ExtP2Name, sp(ExtP2Name)
-		x, err := realise(&refmodel.Claims{P: 2, Canon: refmodel.P2Name, Profile: sp(refmodel.P2Name), ClientID: b.ClientID, Lifecycle: b.Lifecycle, ImplID: b.ImplID, BootSeed: b.BootSeed, CertRef: b.CertRef, Comps: b.Comps, Nonces: b.Nonces, InstID: b.InstID, VSI: b.VSI})
-		if err != nil {
-			continue
+	if derivedSerObjs == nil {
+		for i, a := range []*refmodel.Claims{c02Claims()[3], c02Claims()[0]} {
+			x, err := realise(a)
+			if err != nil {
+				panic(choice.HarnessError{Msg: err.Error()})
+			}
+			extra := int64(7 + i)
+			derivedSerObjs = append(derivedSerObjs, &ExtP2Claims{P2Claims: *x.(*psatoken.P2Claims), Extra: &extra})
 		}
-		extra := int64(7 + i)
-		e := &ExtP2Claims{P2Claims: *x.(*psatoken.P2Claims), Extra: &extra}
-		_, _ = e.MarshalCBOR()
-		_, _ = e.MarshalJSON()
-		_, _ = encoding.SerializeStructToCBOR(extEM, e)
-		_, _ = encoding.SerializeStructToJSON(e)
 	}
+	// (a longer and a shorter encoding, in this order: a reused buffer is overwritten from its start)
+	_, _ = derivedSerObjs[0].MarshalCBOR()
+	_, _ = encoding.SerializeStructToCBOR(extEM, derivedSerObjs[1])
+	_, _ = encoding.SerializeStructToJSON(derivedSerObjs[1])
 }
+
+var derivedSerObjs []*ExtP2Claims
 
 func otherActivity() {
 	pollute(11) // stock-factory claims changed through their pointers
@@ -288,7 +294,16 @@ func otherActivityLight() {
 // c18Shard: worker index / count (exploration of hooked scenarios is single-goroutine per process, so C18 is sharded over processes).
 var c18W, c18N = 0, 1
 
-func c18Mine(x int) bool { return c18N <= 1 || x%c18N == c18W }
+func c18Mine(x int) bool {
+	if c18N <= 1 || x%c18N == c18W {
+		return true
+	}
+	c18Skipped.Add(1)
+	return false
+}
+
+// executions enumerated by this worker that belong to another worker's shard (not counted as evaluations)
+var c18Skipped atomic.Int64
 
 func clipS(s string) string {
 	if len(s) > 600 {
@@ -345,11 +360,12 @@ func init() {
 				return func(c *choice.Ctx) {
 					how := c.Choose("construction", 4)
 					i1 := c.Choose("op1", len(claimsReadOps))
-					if !c18Mine(how*len(claimsReadOps) + i1) {
-						return
-					}
 					i2 := c.Choose("op2", len(claimsReadOps))
 					a := g.gen(c, "")
+					// (sharded on the whole execution: under a deviation bound most executions share the default operations)
+					if !c18Mine(how*len(claimsReadOps) + i1 + i2*7 + int(crc32.ChecksumIEEE([]byte(a.String()))%1024)) {
+						return
+					}
 					var build func() psatoken.IClaims
 					switch how {
 					case 0:
@@ -491,6 +507,88 @@ func init() {
 				c.Failf("C18:history-dependent:Evidence."+ops[i2].name+":after-unrelated-activity", "%s gives a different result after activity on unrelated objects\n got  %s\n want %s", ops[i2].name, clipS(after), clipS(base[1]))
 			}
 			c18stats.Outcome("evidence-pair")
+		}, nil
+	}
+	// by-value copies: every writer (Sign, ValidateAndSign, UnmarshalCOSE, SetClaims) gives the Evidence it is called
+	// on a NEW envelope, so a copy taken earlier keeps the token it had: reading and verifying the copy gives the same
+	// results before and after the ORIGINAL was written to (and the other way round), and the copy's memory is untouched
+	Scenarios["c18.copies"] = func() (choice.Scenario, func() any) {
+		ops := evidenceReadOps()
+		k1, k2 := fixtures.Get("ES256", 1), fixtures.Get("ES256", 2)
+		seeds := c02Claims()
+		var toks [][]byte
+		for ci := range seeds {
+			toks = append(toks, c02MakeSeed("ES256", 1, ci).tok)
+		}
+		type writer struct {
+			name string
+			run  func(ev *psatoken.Evidence, ci int)
+		}
+		other := func(ci int) int { return (ci + 1) % len(seeds) }
+		writers := []writer{
+			{"Sign(same key)", func(ev *psatoken.Evidence, ci int) { ev.Sign(k1.Signer()) }},                                   //nolint:errcheck
+			{"ValidateAndSign(same key)", func(ev *psatoken.Evidence, ci int) { ev.ValidateAndSign(k1.Signer()) }},             //nolint:errcheck
+			{"Sign(another key)", func(ev *psatoken.Evidence, ci int) { ev.Sign(k2.Signer()) }},                                //nolint:errcheck
+			{"UnmarshalCOSE(another token)", func(ev *psatoken.Evidence, ci int) { ev.UnmarshalCOSE(toks[other(ci)]) }},        //nolint:errcheck
+			{"UnmarshalCOSE(not a token)", func(ev *psatoken.Evidence, ci int) { ev.UnmarshalCOSE([]byte{0xd2, 0x84, 0x40}) }}, //nolint:errcheck
+			{"SetClaims(other claims)+Sign", func(ev *psatoken.Evidence, ci int) {
+				x, _ := realise(seeds[other(ci)])
+				if ev.SetClaims(x) == nil {
+					ev.Sign(k1.Signer()) //nolint:errcheck
+				}
+			}},
+			{"Sign(failing signer)", func(ev *psatoken.Evidence, ci int) {
+				ev.Sign(fakeSigner{k1.Signer().Algorithm(), func(io.Reader, []byte) ([]byte, error) { return nil, errors.New("HSM unavailable") }}) //nolint:errcheck
+			}},
+		}
+		return func(c *choice.Ctx) {
+			kind := c.Choose("kind", 2) // 0 decoded, 1 signing
+			ci := c.Choose("claims", len(seeds))
+			w := c.Choose("writer", len(writers))
+			onCopy := c.Choose("written-to", 2) == 1 // 0: the original is written to and the copy observed, 1: the reverse
+			oi := c.Choose("read", len(ops))
+			if !c18Mine(kind*7 + ci*3 + w) {
+				return
+			}
+			var orig *psatoken.Evidence
+			if kind == 0 {
+				ev, err := psatoken.DecodeEvidenceFromCOSE(append([]byte{}, toks[ci]...))
+				if err != nil {
+					panic(choice.HarnessError{Msg: err.Error()})
+				}
+				orig = ev
+			} else {
+				x, _ := realise(seeds[ci])
+				orig = &psatoken.Evidence{}
+				if err := orig.SetClaims(x); err != nil {
+					panic(choice.HarnessError{Msg: err.Error()})
+				}
+				if _, err := orig.Sign(k1.Signer()); err != nil {
+					panic(choice.HarnessError{Msg: err.Error()})
+				}
+			}
+			cp := *orig //nolint:govet
+			target, observed := orig, &cp
+			if onCopy {
+				target, observed = &cp, orig
+			}
+			c18stats.StateStr(fmt.Sprint("copies", kind, ci, w, onCopy, oi))
+			before := ops[oi].run(observed)
+			s0 := deephash.Take(observed, snapOpts)
+			writers[w].run(target, ci)
+			c18stats.Trans.Add(1)
+			which := map[bool]string{false: "a by-value copy taken before", true: "the original (the copy was written to)"}[onCopy]
+			if s1 := deephash.Take(observed, snapOpts); s1.Canon != s0.Canon {
+				c.Failf("C18:copy-changed:"+writers[w].name, "%s on one Evidence changed %s\n before %s\n after  %s", writers[w].name, which, clipS(s0.Canon), clipS(s1.Canon))
+				return
+			}
+			for rep := 0; rep < 2; rep++ {
+				if after := ops[oi].run(observed); after != before {
+					c.Failf("C18:not-repeatable:Evidence."+ops[oi].name+":after-writing-to-a-copy", "%s on %s: %q before %s on the other object, %q after", ops[oi].name, which, clipS(before), writers[w].name, clipS(after))
+					return
+				}
+			}
+			c18stats.Outcome("copies")
 		}, nil
 	}
 	// aliasing of the input buffer
@@ -721,6 +819,7 @@ func init() {
 		dl := deadline(r, 120*time.Second, 15*time.Minute)
 		exploreChoiceOpts(r, "c18.evidence", -1, dl, 1)
 		exploreChoiceOpts(r, "c18.alias", -1, dl, 1)
+		exploreChoiceOpts(r, "c18.copies", -1, dl, 1)
 		exploreChoiceOpts(r, "c18.buffer-reuse", -1, dl, 1)
 		exploreChoiceOpts(r, "c18.several-embedded-structs", -1, dl, 1)
 		b := 3 // construction/op1/op2 are choices too: bound 3 = every op pair on the baseline object + every single op on every 1-deviation object
@@ -740,6 +839,11 @@ func init() {
 			}
 		}
 		c18stats.Publish(r)
+		if n := c18Skipped.Load(); n > 0 {
+			r.Add("evaluations", -n)
+			r.Add("traces_validated_against_impl", -n)
+			r.Add("enumerated_for_other_shards", n)
+		}
 	}
 }
 
